@@ -1,10 +1,10 @@
 use hashbrown::{HashMap, HashSet};
 
 use crate::adt::{AdtMetadata, FieldPosition};
-use crate::evolution::SerializedEvolutionStep;
+use crate::evolution::{SerializedEvolutionStep, FIELD_REMOVED};
 use crate::{
-    BinaryOutput, BinarySerializer, Error, Evolution, Result, SerializationContext,
-    DEFAULT_CAPACITY,
+    BinaryOutput, BinarySerializer, DeduplicatedString, Error, Evolution, Result,
+    SerializationContext, DEFAULT_CAPACITY,
 };
 
 pub struct AdtSerializer<'a, 'b, Output: BinaryOutput> {
@@ -13,6 +13,7 @@ pub struct AdtSerializer<'a, 'b, Output: BinaryOutput> {
     buffers: Vec<Option<Vec<u8>>>, // TODO: We can avoid this completely by generating the write_fields in the proper order
     last_index_per_chunk: HashMap<u8, u8>,
     field_indices: HashMap<String, FieldPosition>,
+    removed_field_names: Vec<Option<Result<Vec<u8>>>>,
 }
 
 impl<'a, 'b, Output: BinaryOutput> AdtSerializer<'a, 'b, Output> {
@@ -28,11 +29,38 @@ impl<'a, 'b, Output: BinaryOutput> AdtSerializer<'a, 'b, Output> {
             buffers: Vec::new(),
             last_index_per_chunk: HashMap::new(),
             field_indices: HashMap::new(),
+            removed_field_names: Vec::new(),
         }
     }
 
     pub fn new(metadata: &'a AdtMetadata, context: &'b mut SerializationContext<Output>) -> Self {
         context.write_u8(metadata.version);
+        // The reader parses the evolution header, and so assigns string ids to the removed
+        // field names in it, before it reads any field. The names are therefore serialized
+        // (as deduplicated strings) before the fields, and emitted with the header in finish().
+        let removed_field_names = metadata
+            .evolution_steps
+            .iter()
+            .map(|evolution| match evolution {
+                Evolution::FieldRemoved { name } | Evolution::FieldMadeTransient { name } => {
+                    Some(name)
+                }
+                Evolution::FieldMadeOptional { name }
+                    if metadata.removed_fields.contains(name) =>
+                {
+                    Some(name)
+                }
+                _ => None,
+            })
+            .map(|name| {
+                name.map(|name| {
+                    context.push_buffer(Vec::new());
+                    let result = DeduplicatedString(name.clone()).serialize(context);
+                    let buffer = context.pop_buffer();
+                    result.map(|_| buffer)
+                })
+            })
+            .collect();
         Self {
             metadata,
             context,
@@ -41,6 +69,7 @@ impl<'a, 'b, Output: BinaryOutput> AdtSerializer<'a, 'b, Output> {
                 .collect(),
             last_index_per_chunk: HashMap::new(),
             field_indices: HashMap::new(),
+            removed_field_names,
         }
     }
 
@@ -106,6 +135,11 @@ impl<'a, 'b, Output: BinaryOutput> AdtSerializer<'a, 'b, Output> {
         removed_fields: &HashSet<String>,
     ) -> Result<()> {
         for (v, evolution) in evolution_steps.iter().enumerate() {
+            if let Some(name_bytes) = self.removed_field_names[v].take() {
+                self.context.write_var_i32(FIELD_REMOVED);
+                self.context.write_bytes(&name_bytes?);
+                continue;
+            }
             let step = match evolution {
                 Evolution::InitialVersion => {
                     let size = self.buffers[v].as_ref().unwrap().len().try_into()?;
